@@ -24,16 +24,16 @@ func c11Specs() []*bfsSpec {
 		{Name: "c11-fast", Cfg: worldCfg{Geom: "gtail", Peers: []peerCfg{{Fast: true, Ext: true, DontHave: 7, ReqQ: 2}}, AutoDrain: true},
 			Alphabet: []string{"bf:0:7", "bf:0:5", "have:0:1", "donthave:0:2", "havenone:0", "unchoke:0", "choke:0", "chokesilent:0", "allowfast:0:2", "allowfast:0:0",
 				"want:2:1", "want:0:0", "unwant:2:1", "tick", "ans:0:old:full", "ans:0:old:corrupt", "rej:0:old", "adv:2", "adv:31", "cmd:0:4", "cmd:0:5"},
-			Depth: 5, DepthT: 7},
+			Depth: 6, DepthT: 8},
 		{Name: "c11-plain-reqq1", Cfg: worldCfg{Geom: "gshort", Peers: []peerCfg{{Ext: true, DontHave: 3, ReqQ: 1}}, AutoDrain: true},
 			Setup:    []string{"bf:0:7"},
 			Alphabet: []string{"bf:0:3", "donthave:0:2", "unchoke:0", "choke:0", "want:2:1", "want:1:0", "unwant:2:1", "tick", "ans:0:old:full", "ans:0:new:full", "ans:0:old:short", "adv:2", "adv:31",
 				"cmd:0:0", "cmd:0:1", "cmd:0:4", "stall:0", "resume:0"},
-			Depth: 5, DepthT: 7},
+			Depth: 6, DepthT: 8},
 		{Name: "c11-queue-revoke", Cfg: worldCfg{Geom: "g2x2", Peers: []peerCfg{{Fast: true, Ext: true, DontHave: 7, ReqQ: 3}}, AutoDrain: true},
 			Setup:    []string{"haveall:0", "unchoke:0", "want:0:1", "want:1:0", "cmd:0:0", "cmd:0:1", "cmd:0:2", "cmd:0:3"},
 			Alphabet: []string{"donthave:0:1", "donthave:0:0", "bf:0:1", "havenone:0", "choke:0", "chokesilent:0", "unchoke:0", "ans:0:old:full", "rej:0:old", "rej:0:new", "ansq:0", "adv:2", "adv:31", "unwant:1:0", "tick", "have:0:1"},
-			Depth: 5, DepthT: 7},
+			Depth: 6, DepthT: 8},
 		{Name: "c11-seeding", Cfg: worldCfg{Geom: "g9", Peers: []peerCfg{{Fast: true, Ext: true, DontHave: 7}, {Ext: true, DontHave: 5}}, Have: []int{0, 3, 8}, AutoDrain: true},
 			Alphabet: []string{"evict", "bf:0:511", "unchoke:0", "want:1:1", "tick", "ans:0:old:full", "ans:0:old:corrupt", "close:0", "adv:2", "interested:1", "unchokepeer:1", "req:1:3:0:16384", "advms:300"},
 			Depth: 5, DepthT: 6},
